@@ -212,6 +212,8 @@ type Listener struct {
 	closed bool
 	Cap    int
 	n      int
+	// CloseErr, if set, is what Close returns (the listener is closed all the same), e.g. a socket file that cannot be removed
+	CloseErr error
 }
 
 func (l *Listener) Accept() (net.Conn, error) {
@@ -243,7 +245,7 @@ func (l *Listener) Close() error {
 		}
 	}
 	l.q = nil
-	return nil
+	return l.CloseErr
 }
 func (l *Listener) Addr() net.Addr { return addr("lis") }
 func (l *Listener) IsClosed() bool { return l.closed }
